@@ -418,6 +418,25 @@ func (x *treeExec) register(i int, e hEntry) (accepted bool, detail string) {
 
 func (x *treeExec) nameFor(reg int) string { return x.named[reg] }
 
+// methodNamedIn returns the index of the only entry whose method occurs in msg as a word of its own, or -1.
+func methodNamedIn(msg string, es []hEntry) int {
+	found := -1
+	for k, e := range es {
+		if e.M == "" {
+			continue
+		}
+		re, err := regexp.Compile(`(^|[^A-Za-z])` + regexp.QuoteMeta(e.M) + `($|[^A-Za-z])`)
+		if err != nil || !re.MatchString(msg) {
+			continue
+		}
+		if found >= 0 {
+			return -1
+		}
+		found = k
+	}
+	return found
+}
+
 // registerMulti registers one route for several methods through a single Routes() call.
 func (x *treeExec) registerMulti(i int, es []hEntry) (accepted bool, detail string) {
 	defer func() {
@@ -811,6 +830,8 @@ func (x *treeExec) run(tr *traceWriter) {
 							failAt = k
 						}
 					}
+				} else if k := methodNamedIn(detail, c.H[i:j]); k >= 0 {
+					failAt = i + k // other wording: the one method of this call that the message names
 				} else {
 					failAt = -2 // failed before any method was tried (parse error): all rejected
 				}
